@@ -15,6 +15,7 @@ RULE = (
     "select_unique_zipped_numpy_arrays vs a dict reference; once per run the unique filter on every three-row view [X, Y, X] of a full two-slot design (2 samples x (T+1)^2 conditions, T=5 / 7) and, for small screens, on every view of three rows. Non-trivial = history contains a nested subset and a union and has depth>=3. distinct = distinct case JSON."
     ' Also: views at id-width boundaries (highest id 2**8-1, 2**16-1 and neighbours, with controls).'
     ' Also: unions of 255 .. 600 views sharing one experiment; 3- and 4-slot conditions at table sizes 2**k - 2 .. 2**k; one history in a hundred has 60..100 operations.'
+    " Also: the derived single-effect table of views against the parent's rows on fixed screens with blank-only samples."
 )
 ASSUMPTIONS = [
     "the model of a view is the sorted list of parent row indices; ids of a materialised screen are not asserted (Screen.combine/to_screen document that ids may change)",
@@ -105,6 +106,11 @@ def exhaustive(tier):
     # (a packed key has base n, n + 1 or n + 2 depending on how the control and the table size are counted: all three neighbours)
     for n, ar in [(254, 4), (255, 4), (256, 4), (65534, 4), (65535, 4), (65536, 4), (65534, 3), (2046, 3)] + ([(65537, 4), (65536, 3), (2047, 3), (2048, 3), (4094, 4), (4095, 4), (2**13 - 2, 4), (2**13 - 1, 4), (2**21 - 2, 3)] if tier != "quick" else []):
         yield {"kind": "width", "axis": "treatments", "n": n, "arity": ar}
+    # the derived per-experiment table of single-agent effects (available when every (sample, treatment) of the screen has a
+    # single-agent well): a view's table is the parent's restricted to its rows - on screens with blank-only samples, repeated
+    # single-agent wells and controls in either slot
+    for variant in range(3 if tier == "quick" else 6):
+        yield {"kind": "ste", "variant": variant}
     # unions of many views in one call: 255 .. 600 operands that all share one reference experiment
     for m in [255, 256, 257] + ([300, 511, 512, 513, 600] if tier != "quick" else [512]):
         yield {"kind": "many_operands", "m": m}
@@ -169,6 +175,37 @@ def _check_width_wide(case):
         want = {key(i) for i in v}
         require(set(got) <= set(v) and len(ks) == len(set(ks)) and set(ks) == want, "unique.width_boundary", lambda: "%d treatments, %d slots: the unique filter on a view of %d experiments with %d distinct conditions keeps %d experiments with conditions %r%s" % (nt, ar, len(v), len(want), len(got), ks[:4], "" if len(v) > 4 else " (the view's conditions: %r)" % sorted(want)))
     return {"nontrivial": True, "labels": ["width-boundary:treatments:arity%d" % ar], "counts": {"width_views": len(views)}}
+
+
+def _check_ste(case):
+    v = case["variant"]
+    nt = 3 + v % 2
+    rows = []
+    for s_ in range(2 + v % 2):
+        for t in range(nt):  # single-agent wells (control in either slot; one of them repeated)
+            slot = (t + s_ + v) % 2
+            rows.append({"s": "s%d" % s_, "p": "p%d" % (t % 2), "t": (["t%d" % t, "ctl"] if slot == 0 else ["ctl", "t%d" % t]), "d": ([1.0, 0.0] if slot == 0 else [0.0, 1.0]), "o": 0.2 + 0.1 * t + 0.05 * s_})
+        rows.append({"s": "s%d" % s_, "p": "p1", "t": ["t0", "ctl"], "d": [1.0, 0.0], "o": 0.9})
+        for t in range(nt):  # combinations
+            rows.append({"s": "s%d" % s_, "p": "p%d" % (2 + t % 2), "t": ["t%d" % t, "t%d" % ((t + 1 + v) % nt)], "d": [1.0, 1.0], "o": 0.5 + 0.01 * t})
+        rows.append({"s": "s%d" % s_, "p": "p2", "t": ["ctl", "ctl"], "d": [0.0, 0.0], "o": 1.0})
+    for b in range(1 + v % 3):  # samples that occur in blank (vehicle-only) wells only
+        rows.append({"s": "blank%d" % b, "p": "p%d" % (b % 4), "t": ["ctl", "ctl"], "d": [0.0, 0.0], "o": 0.97 + 0.01 * b})
+        rows.append({"s": "blank%d" % b, "p": "p3", "t": ["ctl", "ctl"], "d": [0.0, 0.0], "o": 1.01})
+    screen = S.build_screen({"arity": 2, "control": "ctl", "rows": rows, "observed": ["p0", "p1", "p2", "p3"]})
+    n = len(rows)
+    parent = screen.single_treatment_effects
+    require(parent is not None and np.asarray(parent).shape == (n, 2), "harness", "the fixed screen has no single-effect table")
+    parent = np.asarray(parent, dtype=float)
+    views = [[i] for i in range(n)] + [[i, j] for i in range(n) for j in range(i + 1, n) if (i + j + v) % 3 == 0] + [list(range(n)), [i for i in range(n) if rows[i]["s"].startswith("blank")], [i for i in range(n) if rows[i]["t"] == ["ctl", "ctl"]]]
+    views += [[int(i) for i in np.flatnonzero(np.asarray(p_.selection_vector))] for p_ in screen.plates]
+    for idx in views:
+        sel = np.zeros(n, dtype=bool)
+        sel[idx] = True
+        view = screen.subset(sel)
+        got = view.single_treatment_effects
+        require(got is not None and np.asarray(got).shape == (len(idx), 2) and S.same_bits(np.asarray(got, dtype=float), parent[sel]), "view.single_treatment_effects", lambda: "rows %r: the view's single-effect table is %r, the parent's rows are %r" % (idx[:6], None if got is None else np.asarray(got).tolist()[:4], parent[sel].tolist()[:4]))
+    return {"nontrivial": True, "labels": ["single-effect-table-of-views"], "counts": {"ste_views": len(views)}}
 
 
 def _check_many_operands(case):
@@ -239,6 +276,8 @@ def check_case(case):
         return _check_xyx(case)
     if case.get("kind") == "width":
         return _check_width(case)
+    if case.get("kind") == "ste":
+        return _check_ste(case)
     if case.get("kind") == "many_operands":
         return _check_many_operands(case)
     from batchie.common import select_unique_zipped_numpy_arrays
